@@ -450,7 +450,9 @@ pub enum PendingJournalOp {
         live_workers: Vec<u32>,
         at: usize,
     },
-    Replay,
+    /// history replay: the journal thread flushes, reads the file as it is when it gets to
+    /// this message (= every record sent to it before) into the sender, and drops the sender
+    Replay(tokio::sync::mpsc::UnboundedSender<hyperqueue::server::event::Event>, usize),
 }
 
 #[derive(Debug, Clone, Default, PartialEq, Eq, Hash, Serialize)]
@@ -763,6 +765,11 @@ fn client_message(req: &Req) -> FromClientMessage {
         Req::WorkerInfo(w) => FromClientMessage::WorkerInfo(WorkerInfoRequest {
             selector: ids(&[*w]),
             runtime_info: true,
+        }),
+        Req::StreamAll => FromClientMessage::StreamEvents(StreamEvents {
+            mode: StreamEventsMode::PastAndLiveEvents,
+            enable_worker_overviews: false,
+            filter: EventFilter::all_events(),
         }),
         Req::StopWorker(w) => FromClientMessage::StopWorker(StopWorkerMessage {
             selector: ids(&[*w]),
@@ -1254,8 +1261,9 @@ impl System {
                             at: self.journal_records.len(),
                         });
                     }
-                    EventStreamMessage::ReplayJournal(_) => {
-                        self.pending_ops.push_back(PendingJournalOp::Replay);
+                    EventStreamMessage::ReplayJournal(tx) => {
+                        self.pending_ops
+                            .push_back(PendingJournalOp::Replay(tx, self.journal_records.len()));
                     }
                 }
             }
@@ -1598,6 +1606,9 @@ impl System {
                     let req = self.sc.clients[c as usize][idx as usize].clone();
                     conn.next += 1;
                     conn.pending = Some((idx, req.clone()));
+                    if matches!(req, Req::StreamAll) {
+                        conn.streaming = true;
+                    }
                     self.obs.push(Obs::ClientRequest {
                         client: c,
                         idx,
@@ -1641,7 +1652,11 @@ impl System {
                             self.acked_records = self.acked_records.max(at);
                             let _ = callback.send(());
                         }
-                        PendingJournalOp::Replay => {}
+                        PendingJournalOp::Replay(tx, at) => {
+                            for e in &self.journal_records[..at] {
+                                let _ = tx.send(e.clone());
+                            }
+                        }
                     }
                 }
             }
@@ -1773,6 +1788,19 @@ fn describe_to_worker(frame: &[u8]) -> (&'static str, Vec<TaskId>, String) {
         Some(M::NewResourceRequest(id, _)) => ("newrq", vec![], format!("NewResourceRequest({id})")),
         Some(M::SetOverviewIntervalOverride(_)) => ("overview", vec![], "SetOverview".into()),
         None => ("undecodable", vec![], "?".into()),
+    }
+}
+
+impl System {
+    /// The task ids the worker in `slot` named in the retract confirmation it queued last (the
+    /// newest frame of its outgoing queue, right after it processed a RetractTasks message).
+    pub fn last_retract_confirmation(&self, slot: u8) -> Option<Vec<TaskId>> {
+        let w = self.workers.get(slot as usize)?.as_ref()?;
+        let f = w.to_server.back()?;
+        match describe_from_worker(f) {
+            ("retract-response", ts) => Some(ts.into_iter().map(|(t, _)| t).collect()),
+            _ => None,
+        }
     }
 }
 
